@@ -84,8 +84,10 @@ class LBL:
 class CTX:
     """A LoopContext created by the branch under analysis."""
 
-    def __init__(self, line: int, is_loop: bool, labelled: bool):
+    def __init__(self, line: int, is_loop: bool, labelled: bool, stack_items: int = 0, is_try: bool = False, finalizer: Optional[str] = None):
         self.line, self.is_loop, self.labelled = line, is_loop, labelled
+        self.stack_items, self.is_try, self.finalizer = stack_items, is_try, finalizer
+        self.handler_active = False  # tracked through `ctx.handler_active = ...` assignments
         self.body_depth: Optional[Lin] = None
         self.patched: Dict[str, Any] = {}
         self.pushed = False
@@ -124,6 +126,16 @@ NONE = "NONE"
 UNK = "UNK"
 
 
+class ASTREF:
+    """A helper parameter bound to an expression over the AST node under compilation (e.g. node.finalizer)."""
+
+    def __init__(self, text: str):
+        self.text = text
+
+
+_MISSING = object()
+
+
 class State:
     def __init__(self):
         self.depth: Lin = Lin(0)
@@ -136,6 +148,8 @@ class State:
         self.findings: List[Tuple[str, str, str, int]] = []  # (obligation, key, msg, line)
         self.ctxs: List[CTX] = []
         self.ctx_stack: List[Any] = []
+        self.deferred: List[Any] = []  # (depth, declared operands, what, line) checked at the end of the path
+        self.ctxflags: Dict[int, bool] = {}  # CTX.line -> handler_active, per path
         self.returned = False
         self.raised = False
         self.assumed = False
@@ -184,6 +198,8 @@ class State:
         s.findings = list(self.findings)
         s.ctxs = list(self.ctxs)
         s.ctx_stack = list(self.ctx_stack)
+        s.deferred = list(self.deferred)
+        s.ctxflags = dict(self.ctxflags)
         s.returned = self.returned
         s.raised = self.raised
         s.assumed = self.assumed
@@ -363,6 +379,7 @@ class EmitAnalysis:
                 s.raised,
                 s.assumed,
                 tuple(sorted(s.dec.items())),
+                tuple(sorted(s.ctxflags.items())),
                 tuple(sorted(s.outstanding)),
                 tuple(sorted((k, _vkey(v)) for k, v in s.env.items())),
                 tuple(f[:2] for f in s.findings),
@@ -399,6 +416,9 @@ class EmitAnalysis:
             self.ev(s.value, st)
             return [st]
         if isinstance(s, ast.Expr):
+            inl = self._inline_emit_helper(s.value, st)
+            if inl is not None:
+                return inl
             self.ev(s.value, st)
             return [st]
         if isinstance(s, (ast.Pass, ast.Import, ast.ImportFrom, ast.Break, ast.Continue)):
@@ -408,7 +428,56 @@ class EmitAnalysis:
             return self.block(s.body, [st])
         raise AnalysisError(f"unsupported statement in compiler branch at line {s.lineno}: {type(s).__name__}")
 
+    def _inline_emit_helper(self, e: ast.AST, st: State) -> Optional[List[State]]:
+        """A statement `self._emit_xxx(args)` whose callee is a small method of the compiler that itself emits
+        (e.g. the shared store-to-variable helpers): interpret its body in place, parameters bound to the
+        argument values, so that its emits, decisions and events count for the calling branch."""
+        if not (isinstance(e, ast.Call) and isinstance(e.func, ast.Attribute) and norm(e.func.value) == "self"):
+            return None
+        name = e.func.attr
+        if name in ("_emit", "_emit_jump", "_patch_jump", "_emit_pending_finally_blocks", "_emit_leave_contexts", "_compile_statement", "_compile_expression", "_compile_statement_for_value", "_new_loop_context") or name in _NO_EMIT_HELPERS:
+            return None
+        helper = self.methods.get(name)
+        if helper is None or not _emits(helper, self.methods, set()):
+            return None
+        depth = getattr(self, "_inline_depth", 0)
+        if depth >= 2:
+            raise AnalysisError(f"emit helper {helper.qual} nests too deeply (line {e.lineno})")
+        params = [a.arg for a in helper.node.args.args if a.arg != "self"]
+        if len(e.args) != len(params) or e.keywords:
+            raise AnalysisError(f"emit helper {helper.qual} called with an unsupported argument shape at line {e.lineno}")
+        saved = {p_: st.env.get(p_, _MISSING) for p_ in params}
+        for p_, a in zip(params, e.args):
+            v = self.ev(a, st)
+            # an argument taken from the AST node being compiled keeps its source text, so that events inside
+            # the helper name the same thing as they would in the caller
+            st.env[p_] = ASTREF(norm(a)) if v is UNK else v
+        self._inline_depth = depth + 1
+        try:
+            body = [x for x in helper.node.body if not (isinstance(x, ast.Expr) and isinstance(x.value, ast.Constant))]
+            outs = self.block(body, [st])
+        finally:
+            self._inline_depth = depth
+        res = []
+        for o in outs:
+            if o.returned:
+                o.returned = False  # the helper returned, not the branch
+            for p_, v in saved.items():
+                if v is _MISSING:
+                    o.env.pop(p_, None)
+                else:
+                    o.env[p_] = v
+            res.append(o)
+        return self._merge(res)
+
     def _assign(self, t: ast.AST, v: Any, st: State, s: ast.stmt) -> None:
+        if isinstance(t, ast.Attribute) and isinstance(t.value, ast.Name) and isinstance(st.env.get(t.value.id), CTX):
+            c = st.env[t.value.id]
+            if t.attr == "handler_active" and isinstance(s, ast.Assign) and isinstance(s.value, ast.Constant) and isinstance(s.value.value, bool):
+                st.ctxflags[c.line] = s.value.value
+                st.events.append(("ctx-flag", c.line, "handler_active", s.value.value, s.lineno))
+                return
+            raise AnalysisError(f"unsupported assignment to a context attribute at line {s.lineno}: {norm(t)}")
         if isinstance(t, ast.Name):
             if isinstance(v, LBL):
                 v.name = t.id
@@ -484,6 +553,7 @@ class EmitAnalysis:
             res = st
             for o in outs:
                 res.findings = _union(res.findings, o.findings)
+                res.deferred = res.deferred + [d for d in o.deferred if d not in res.deferred]
                 for uid in list(res.outstanding):
                     if uid not in o.outstanding:
                         res.outstanding.pop(uid, None)
@@ -510,6 +580,7 @@ class EmitAnalysis:
             res.looplocals = set(start.looplocals)
             for e in ends:
                 res.findings = _union(res.findings, e.findings)
+                res.deferred = res.deferred + [d for d in e.deferred if d not in res.deferred]
                 for uid, ph in e.outstanding.items():
                     res.outstanding.setdefault(uid, ph)
                 for k, v in e.env.items():
@@ -539,6 +610,7 @@ class EmitAnalysis:
         res = start.clone()
         for e in ends:
             res.findings = _union(res.findings, e.findings)
+            res.deferred = res.deferred + [d for d in e.deferred if d not in res.deferred]
             for uid, ph in e.outstanding.items():
                 res.outstanding.setdefault(uid, ph)
             for uid in list(res.outstanding):
@@ -581,6 +653,7 @@ class EmitAnalysis:
                 dead.env[nm] = UNK
             for e in self.block(s.body, [dead]):
                 res.findings = _union(res.findings, e.findings)
+                res.deferred = res.deferred + [d for d in e.deferred if d not in res.deferred]
         out = [res] + [e for e in ends if e.returned]
         return out
 
@@ -611,6 +684,7 @@ class EmitAnalysis:
             res = st
             for e in ends:
                 res.findings = _union(res.findings, e.findings)
+                res.deferred = res.deferred + [d for d in e.deferred if d not in res.deferred]
                 for ev in e.events[ev0:]:
                     if ev[0] in ("expr", "stmt", "emit", "varemit") and ev not in res.events[ev0:]:
                         res.events.append(ev)
@@ -771,12 +845,25 @@ class EmitAnalysis:
                 st.depth = Lin(0, {f"@L{e.lineno}": 1})
                 st.dead_emit_reported = False
             return LBL(st.depth, e.lineno, len(st.events) - 1)
-        if fn in ("LoopContext",):
+        if fn in ("LoopContext", "self._new_loop_context"):
             kw = {k.arg: k.value for k in e.keywords}
             is_loop = not ("is_loop" in kw and isinstance(kw["is_loop"], ast.Constant) and kw["is_loop"].value is False)
-            c = CTX(e.lineno, is_loop, "label" in kw)
+            items = 0
+            if "stack_items" in kw:
+                if not (isinstance(kw["stack_items"], ast.Constant) and isinstance(kw["stack_items"].value, int)):
+                    raise AnalysisError(f"context created with a non-literal stack_items at line {e.lineno}")
+                items = kw["stack_items"].value
+            is_try = "is_try" in kw and isinstance(kw["is_try"], ast.Constant) and kw["is_try"].value is True
+            fin = norm(kw["finalizer"]) if "finalizer" in kw else None
+            # a loop context made by the helper takes over the labels written before the loop
+            c = CTX(e.lineno, is_loop, "label" in kw or fn == "self._new_loop_context", items, is_try, fin)
             st.ctxs.append(c)
             return c
+        if fn == "self._emit_leave_contexts":
+            kw = {k.arg: norm(k.value) for k in e.keywords}
+            tgt = norm(e.args[0]) if e.args else kw.get("target", "?")
+            st.events.append(("leave", tgt, kw.get("drop_operands", norm(e.args[1]) if len(e.args) > 1 else "?"), e.lineno))
+            return UNK
         if fn == "self.loop_stack.append" and e.args:
             v = self.ev(e.args[0], st)
             if isinstance(v, CTX):
@@ -926,11 +1013,26 @@ class EmitAnalysis:
 
     def _compile_event(self, kind: str, e: ast.Call, st: State, delta: int) -> None:
         what = norm(e.args[0]) if e.args else "?"
+        if e.args and isinstance(e.args[0], ast.Name) and isinstance(st.env.get(e.args[0].id), ASTREF):
+            what = st.env[e.args[0].id].text
+        if kind in ("stmt", "value"):
+            # which contexts of this branch are on loop_stack (and what they declare) while `what` is compiled
+            st.events.append(("ctxs", tuple((c.line, st.ctxflags.get(c.line, False), c.finalizer, c.is_try) for c in st.ctx_stack), e.lineno))
         st.events.append((kind, what, e.lineno))
         if kind in ("stmt", "value") and st.ctx_stack:
             top = st.ctx_stack[-1]
             if top.body_depth is None and st.live:
                 top.body_depth = st.depth
+        if kind in ("stmt", "value") and st.live:
+            # O13: what break/continue/return will undo is what the contexts on the stack DECLARE; it has to be
+            # what the branch actually set up at this point
+            declared = sum(c.stack_items for c in st.ctx_stack)
+            # compared when the path ends: the depth may contain a label symbol that is only fixed later
+            n_start = sum(1 for x in st.events if x[0] == "emit" and x[1] == "TRY_START")
+            n_end = sum(1 for x in st.events if x[0] == "emit" and x[1] == "TRY_END")
+            flagged = sum(1 for c in st.ctx_stack if st.ctxflags.get(c.line, False))
+            own_fin = any(c.finalizer is not None and what == c.finalizer and c in st.ctx_stack for c in st.ctxs)
+            st.deferred = st.deferred + [(st.depth, declared, what, e.lineno, n_start - n_end, flagged, own_fin)]
         if not st.live:
             if not st.dead_emit_reported:
                 st.dead_emit_reported = True
@@ -992,6 +1094,8 @@ def _vkey(v: Any):
         return ("LBL", v.line, repr(v.depth))
     if isinstance(v, CTX):
         return ("CTX", v.line)
+    if isinstance(v, ASTREF):
+        return ("AST", v.text)
     if isinstance(v, TUP):
         return ("TUP", tuple(_vkey(x) for x in v.items))
     if isinstance(v, LST):
